@@ -43,7 +43,57 @@ func (nopLogger) Debugf(string, ...interface{}) {}
 func (nopLogger) Print(...interface{})          {}
 func (nopLogger) Printf(string, ...interface{}) {}
 
-func init() { gobinlog.SetLogger(nopLogger{}) }
+func init() {
+	gobinlog.SetLogger(nopLogger{})
+	gobinlog.VerifSetHook(vfHook)
+}
+
+// ---- verif hooks: trace points and scheduler gates ----------------------------------------------------
+
+var (
+	hookMu    sync.Mutex
+	hookRec   *Recorder // non-nil: record hook lines
+	hookAtt   int
+	hookSeed  uint64 // non-zero: pseudo-random delays at hook points (schedule fuzzing)
+	hookCount uint64
+)
+
+// vfHook is installed into the library (build tag verif). It records the point (per-process sequence number from
+// the recorder, goroutine id) and, when schedule fuzzing is on, delays the calling goroutine by a seeded
+// pseudo-random amount: every hook point becomes a place where the scheduler may switch.
+func vfHook(point string) {
+	hookMu.Lock()
+	rec, att, seed := hookRec, hookAtt, hookSeed
+	hookCount++
+	n := hookCount
+	hookMu.Unlock()
+	if rec != nil {
+		rec.Emit(M{"ev": "hook", "att": att, "p": point, "g": goid()})
+	}
+	if seed != 0 {
+		x := seed ^ (n * 0x9e3779b97f4a7c15)
+		for i := 0; i < len(point); i++ {
+			x = (x ^ uint64(point[i])) * 0x100000001b3
+		}
+		x ^= x >> 29
+		switch x % 8 {
+		case 0:
+			time.Sleep(2 * time.Millisecond)
+		case 1:
+			time.Sleep(200 * time.Microsecond)
+		case 2:
+			runtime.Gosched()
+		case 3:
+			time.Sleep(15 * time.Millisecond)
+		}
+	}
+}
+
+func setHooks(rec *Recorder, att int, seed uint64) {
+	hookMu.Lock()
+	hookRec, hookAtt, hookSeed = rec, att, seed
+	hookMu.Unlock()
+}
 
 // waitBound is "bounded time" (observed latencies are milliseconds).
 var waitBound = 8 * time.Second
@@ -279,6 +329,8 @@ type AttemptPlan struct {
 	CancelAfterReturn bool // the caller cancels its context after Stream returned, before calling Error()
 	LogDelayMs        int  // the log sink takes this long per Errorf/Infof call (slow sink: shifts the reader's timing)
 	SkipError         bool // the caller does not call Error() after this attempt (Stream already returned an error)
+	HookTrace         bool // record the library's hook points of this attempt (implementation-level trace)
+	HookFuzz          uint64 // non-zero: seeded pseudo-random delays at every hook point
 }
 
 func defaultAttempt() AttemptPlan {
@@ -289,7 +341,7 @@ func (a AttemptPlan) J() M {
 	m := M{"pacing": a.Pacing, "end": a.End, "connfault": orNone(a.ConnFault), "handlerErrAt": a.HandlerErrAt,
 		"mapperFault": orNone(a.MapperFault), "cancelAtTx": a.CancelAtTx, "cancelAtPkt": a.CancelAtPkt,
 		"handlerBlock": a.HandlerBlock, "scribble": a.Scribble, "dead": a.Dead, "cancelAfterReturn": a.CancelAfterReturn,
-		"logDelayMs": a.LogDelayMs, "skipError": a.SkipError}
+		"logDelayMs": a.LogDelayMs, "skipError": a.SkipError, "hookTrace": a.HookTrace, "hookFuzz": a.HookFuzz != 0}
 	if a.Fault != nil {
 		m["fault"] = M{"kind": a.Fault.Kind, "at": a.Fault.At, "code": int(a.Fault.Code), "msg": B(a.Fault.Msg)}
 	} else {
@@ -639,6 +691,12 @@ func (rs *runState) runAttempt(att int, a AttemptPlan, dsnOverride string) {
 	}
 	atomic.StoreInt64(&logDelay, int64(a.LogDelayMs)*int64(time.Millisecond))
 	defer atomic.StoreInt64(&logDelay, 0)
+	if a.HookTrace {
+		setHooks(rec, att, a.HookFuzz)
+	} else {
+		setHooks(nil, att, a.HookFuzz)
+	}
+	defer setHooks(nil, 0, 0)
 	rec.Emit(M{"ev": "attempt", "att": att, "plan": a.J(), "nbefore": nbefore})
 	baseG := libraryGoroutines() // goroutines leaked by earlier attempts are not charged to this one
 	t0 := time.Now()
